@@ -1,6 +1,7 @@
 //! C15 (+ the fund-moving / position part of C04) — Anchor-dispatched fund-moving and position instructions.
 //!
-//! One harness per accounts struct: the *generated* `try_accounts` runs on accounts built with
+//! One harness per accounts struct (names `*_accounts`, or the instruction name when the handler is included): the
+//! *generated* `try_accounts` runs on accounts built with
 //! `AccountInfo::new`; keys, owners, signer/writable/executable flags, lamports and the data bytes are
 //! symbolic (program-owned accounts: every byte; SPL token accounts / mints: every field, see `any_token`).
 //! Every `address=` / `has_one` / `constraint` / `owner` / `seeds` clause of the struct is asserted as a
@@ -9,10 +10,16 @@
 //! `Ok`/sets a flag), so the harness decides "the first token movement is reached => ...".
 //!
 //! Stubs (all part of the claim): `alloc::fmt::format`, `<Pubkey as Display>::fmt` (error messages are never observed),
-//! code-preserving error conversions,
+//! `Error::with_account_name` (identity: the origin annotation of an error is never observed), code-preserving error conversions,
 //! `Pubkey::find_program_address` (ideal-hash model: arbitrary but fixed output per seed list; the harness
-//! asserts which seeds were hashed), `Clock::get`/`Rent::get` (arbitrary values), CPI helpers
-//! (`transfer_from_vault_to_owner(_v2)`, `burn_and_close_*`, `freeze_*`, ...: never executed).
+//! asserts which seeds were hashed), `Clock::get` (arbitrary clock) / `Rent::get` (fails after setting a flag), CPI helpers
+//! (`transfer_from_vault_to_owner_v2`, `burn_and_close_*`, `collect_rent_for_ticks_in_position`: never executed),
+//! `calculate_fee_and_reward_growths` (end marker of the update_fees_and_rewards prefix).
+//!
+//! Measured limits (CBMC 6.11, 22-30 GB): struct + handler fits for <= 6-account v1 structs and for the v2 collect
+//! structs; for collect_fees / collect_reward / collect_protocol_fees (v1), collect_reward_v2, transfer_locked_position the
+//! struct alone is decided; TwoHopSwap(V2) (20/24 accounts), LockPosition and the `init` part of OpenBundledPosition did
+//! not fit at all (see the final report).
 use crate::common::*;
 use anchor_lang::prelude::*;
 use anchor_lang::Discriminator;
@@ -162,12 +169,21 @@ pub mod pda {
     use anchor_lang::prelude::Pubkey;
     pub const MAXC: usize = 3;
     pub const MAXS: usize = 3;
-    #[derive(Clone, Copy, PartialEq, Eq)]
+    #[derive(Clone, Copy)]
     pub struct Seeds {
         pub n: usize,
         pub len: [usize; MAXS],
         pub b: [[u8; 32]; MAXS],
         pub program: [u8; 32],
+    }
+    impl Seeds {
+        /// field-wise equality with every byte comparison <= 32 bytes long (harness unwind bound 34)
+        pub fn same(&self, o: &Seeds) -> bool {
+            self.n == o.n
+                && self.len[0] == o.len[0] && self.len[1] == o.len[1] && self.len[2] == o.len[2]
+                && self.b[0] == o.b[0] && self.b[1] == o.b[1] && self.b[2] == o.b[2]
+                && self.program == o.program
+        }
     }
     pub const EMPTY: Seeds = Seeds { n: 0, len: [0; MAXS], b: [[0; 32]; MAXS], program: [0; 32] };
     pub static mut CALLS: usize = 0;
@@ -193,7 +209,7 @@ pub mod pda {
         unsafe {
             let mut c = 0;
             while c < CALLS {
-                if IN[c] == s {
+                if IN[c].same(&s) {
                     return (Pubkey::new_from_array(OUT[c].0), OUT[c].1);
                 }
                 c += 1;
@@ -223,7 +239,7 @@ pub mod pda {
         unsafe {
             let mut c = 0;
             while c < CALLS {
-                if IN[c] == want && OUT[c].0 == key.to_bytes() {
+                if IN[c].same(&want) && OUT[c].0 == key.to_bytes() {
                     return true;
                 }
                 c += 1;
@@ -241,6 +257,7 @@ pub mod pda {
 #[kani::proof]
 #[kani::unwind(34)]
 #[kani::stub(alloc::fmt::format, stub_format)]
+#[kani::stub(anchor_lang::error::Error::with_account_name, stub_with_account_name)]
 #[kani::stub(<anchor_lang::prelude::Pubkey as core::fmt::Display>::fmt, stub_pubkey_display)]
 #[kani::stub(<anchor_lang::error::Error as core::convert::From<::whirlpool::errors::ErrorCode>>::from, stub_err_from_code)]
 fn c15_validate_owner() {
@@ -265,6 +282,7 @@ fn c15_validate_owner() {
 #[kani::proof]
 #[kani::unwind(34)]
 #[kani::stub(alloc::fmt::format, stub_format)]
+#[kani::stub(anchor_lang::error::Error::with_account_name, stub_with_account_name)]
 #[kani::stub(<anchor_lang::prelude::Pubkey as core::fmt::Display>::fmt, stub_pubkey_display)]
 #[kani::stub(<anchor_lang::error::Error as core::convert::From<::whirlpool::errors::ErrorCode>>::from, stub_err_from_code)]
 #[kani::stub(<anchor_lang::error::Error as core::convert::From<anchor_lang::error::ErrorCode>>::from, stub_err_from_anchor_code)]
@@ -311,6 +329,7 @@ fn c15_verify_position_authority() {
 #[kani::proof]
 #[kani::unwind(34)]
 #[kani::stub(alloc::fmt::format, stub_format)]
+#[kani::stub(anchor_lang::error::Error::with_account_name, stub_with_account_name)]
 #[kani::stub(<anchor_lang::prelude::Pubkey as core::fmt::Display>::fmt, stub_pubkey_display)]
 #[kani::stub(<anchor_lang::error::Error as core::convert::From<::whirlpool::errors::ErrorCode>>::from, stub_err_from_code)]
 #[kani::stub(<anchor_lang::error::Error as core::convert::From<anchor_lang::error::ErrorCode>>::from, stub_err_from_anchor_code)]
@@ -351,37 +370,20 @@ fn c15_verify_position_authority_interface() {
 // ------------------------------------------------------------------------------------------------
 // (iii) accounts structs (+ handler up to the first CPI)
 
-/// recorded arguments of the stubbed vault->owner transfers (keys of vault and destination)
-static mut XFER_N: usize = 0;
-static mut XFER: [([u8; 32], [u8; 32]); 2] = [([0; 32], [0; 32]); 2];
-fn stub_transfer_from_vault_to_owner<'info>(
-    _whirlpool: &Account<'info, Whirlpool>,
-    token_vault: &Account<'info, anchor_spl::token::TokenAccount>,
-    token_owner_account: &Account<'info, anchor_spl::token::TokenAccount>,
-    _token_program: &Program<'info, anchor_spl::token::Token>,
-    _amount: u64,
-) -> Result<()> {
-    unsafe {
-        if XFER_N < 2 {
-            XFER[XFER_N] = (token_vault.key().to_bytes(), token_owner_account.key().to_bytes());
-        }
-        XFER_N += 1;
-    }
-    Ok(())
-}
-
-/// collect_fees: `CollectFees::try_accounts` then the real handler (token CPI stubbed to record its arguments).
-/// handler Ok => every clause of the struct /\ position authority rule /\ the two transfers go vault_a->owner_a, vault_b->owner_b.
+/// collect_fees, accounts struct: `CollectFees::try_accounts` Ok => every clause of the struct (see the assertions). The
+/// handler's only check before its first CPI is `verify_position_authority_interface(position_token_account,
+/// position_authority)`, decided on all inputs by `c15_verify_position_authority_interface`; running the real handler on top
+/// of the 9 symbolic accounts exceeded 30 GB in CBMC (the v2 twin `c15_collect_fees_v2` does include the handler).
 /// Symbolic: all keys/owners/flags/lamports, all 653+216 bytes of whirlpool and position, token account fields (see `any_token*`).
 // @verif prop=C04,C15 tier=thorough timeout=1800 large
 #[kani::proof]
 #[kani::unwind(34)]
 #[kani::stub(alloc::fmt::format, stub_format)]
+#[kani::stub(anchor_lang::error::Error::with_account_name, stub_with_account_name)]
 #[kani::stub(<anchor_lang::prelude::Pubkey as core::fmt::Display>::fmt, stub_pubkey_display)]
 #[kani::stub(<anchor_lang::error::Error as core::convert::From<::whirlpool::errors::ErrorCode>>::from, stub_err_from_code)]
 #[kani::stub(<anchor_lang::error::Error as core::convert::From<anchor_lang::error::ErrorCode>>::from, stub_err_from_anchor_code)]
-#[kani::stub(::whirlpool::util::transfer_from_vault_to_owner, stub_transfer_from_vault_to_owner)]
-fn c15_collect_fees() {
+fn c15_collect_fees_accounts() {
     let program_id = ::whirlpool::ID;
     let mut wp = any_data::<653>();
     let mut auth = any_plain();
@@ -399,8 +401,8 @@ fn c15_collect_fees() {
     let (auth_key, auth_signer) = (auth.key, auth.signer);
     let (pos_owner, pos_d, pos_w) = (pos.owner, pos.data, pos.writable);
     let pta_owner = pta.owner;
-    let (oa_key, oa_owner, va_key, va_owner) = (oa_a.key, oa_a.owner, va_a.key, va_a.owner);
-    let (ob_key, ob_owner, vb_key, vb_owner) = (ob_a.key, ob_a.owner, vb_a.key, vb_a.owner);
+    let (oa_owner, va_key, va_owner) = (oa_a.owner, va_a.key, va_a.owner);
+    let (ob_owner, vb_key, vb_owner) = (ob_a.owner, vb_a.key, vb_a.owner);
     let (tp_key, tp_exec) = (tp.key, tp.exec);
 
     let accounts = [wp.ai(), auth.ai(), pos.ai(), pta.ai(), oa_a.ai(), va_a.ai(), ob_a.ai(), vb_a.ai(), tp.ai()];
@@ -409,19 +411,7 @@ fn c15_collect_fees() {
     let mut reallocs = BTreeSet::new();
     let r = <::whirlpool::instructions::CollectFees as anchor_lang::Accounts<_>>::try_accounts(&program_id, &mut slice, &[], &mut bumps, &mut reallocs);
     let struct_ok = r.is_ok();
-    let mut handler_ok = false;
-    match r {
-        Ok(mut accs) => {
-            let ctx = Context::new(&program_id, &mut accs, &[], bumps);
-            let h = ::whirlpool::instructions::collect_fees::handler(ctx);
-            handler_ok = h.is_ok();
-            core::mem::forget(h);
-            core::mem::forget(accs);
-        }
-        Err(e) => core::mem::forget(e),
-    }
-    kani::cover!(handler_ok, "handler reaches both transfers");
-    kani::cover!(struct_ok && !handler_ok, "struct ok, authority rejected");
+    kani::cover!(struct_ok, "ok");
     if struct_ok {
         assert!(wp_owner == program_id && pos_owner == program_id);
         assert!(wp_d[..8] == *Whirlpool::DISCRIMINATOR && pos_d[..8] == *Position::DISCRIMINATOR);
@@ -435,15 +425,7 @@ fn c15_collect_fees() {
         assert!(va_key.to_bytes() == f32b(&wp_d, WP_VAULT_A) && vb_key.to_bytes() == f32b(&wp_d, WP_VAULT_B));
         assert!(tp_key == token_id() && tp_exec);
     }
-    if handler_ok {
-        assert!(struct_ok);
-        assert!(pt.authority_rule(&auth_key) && pt.holder_or_one_token_delegate(&auth_key));
-        unsafe {
-            assert!(XFER_N == 2);
-            assert!(XFER[0] == (va_key.to_bytes(), oa_key.to_bytes()));
-            assert!(XFER[1] == (vb_key.to_bytes(), ob_key.to_bytes()));
-        }
-    }
+    core::mem::forget(r);
 }
 
 macro_rules! run_try_accounts {
@@ -473,18 +455,20 @@ macro_rules! run_handler {
     }};
 }
 
-/// collect_protocol_fees: struct + real handler (token CPI stubbed). handler Ok => whirlpool.whirlpools_config == config key,
+/// collect_protocol_fees, accounts struct (the handler performs no check of its own: it transfers and resets the owed
+/// amounts; struct + handler ran out of memory at 22 GB, the v2 twin `c15_collect_protocol_fees_v2` includes the handler).
+/// Ok => whirlpool.whirlpools_config == config key,
 /// authority signed and == config.collect_protocol_fees_authority, vaults == pool vaults, destination mints == pool mints,
-/// token program id, all accounts owned by the right program; transfers are vault_a->dest_a, vault_b->dest_b.
+/// token program id, all accounts owned by the right program.
 // @verif prop=C04,C15 tier=thorough timeout=1800 large
 #[kani::proof]
 #[kani::unwind(34)]
 #[kani::stub(alloc::fmt::format, stub_format)]
+#[kani::stub(anchor_lang::error::Error::with_account_name, stub_with_account_name)]
 #[kani::stub(<anchor_lang::prelude::Pubkey as core::fmt::Display>::fmt, stub_pubkey_display)]
 #[kani::stub(<anchor_lang::error::Error as core::convert::From<::whirlpool::errors::ErrorCode>>::from, stub_err_from_code)]
 #[kani::stub(<anchor_lang::error::Error as core::convert::From<anchor_lang::error::ErrorCode>>::from, stub_err_from_anchor_code)]
-#[kani::stub(::whirlpool::util::transfer_from_vault_to_owner, stub_transfer_from_vault_to_owner)]
-fn c15_collect_protocol_fees() {
+fn c15_collect_protocol_fees_accounts() {
     let program_id = ::whirlpool::ID;
     let mut cfg = any_data::<108>();
     let mut wp = any_data::<653>();
@@ -502,11 +486,9 @@ fn c15_collect_protocol_fees() {
     let (da_key, da_owner, db_key, db_owner) = (da_a.key, da_a.owner, db_a.key, db_a.owner);
     let (tp_key, tp_exec) = (tp.key, tp.exec);
     let accounts = [cfg.ai(), wp.ai(), auth.ai(), va_a.ai(), vb_a.ai(), da_a.ai(), db_a.ai(), tp.ai()];
-    let (r, bumps) = run_try_accounts!(::whirlpool::instructions::CollectProtocolFees, &program_id, accounts, &[]);
+    let (r, _bumps) = run_try_accounts!(::whirlpool::instructions::CollectProtocolFees, &program_id, accounts, &[]);
     let struct_ok = r.is_ok();
-    let handler_ok = run_handler!(r, bumps, &program_id, |ctx| ::whirlpool::instructions::collect_protocol_fees::handler(ctx));
-    kani::cover!(handler_ok, "handler reaches both transfers");
-    assert!(handler_ok == struct_ok); // the handler adds no check
+    kani::cover!(struct_ok, "ok");
     if struct_ok {
         assert!(cfg_owner == program_id && wp_owner == program_id && wp_w);
         assert!(cfg_d[..8] == *WhirlpoolsConfig::DISCRIMINATOR && wp_d[..8] == *Whirlpool::DISCRIMINATOR);
@@ -516,27 +498,23 @@ fn c15_collect_protocol_fees() {
         assert!(va_key.to_bytes() == f32b(&wp_d, WP_VAULT_A) && vb_key.to_bytes() == f32b(&wp_d, WP_VAULT_B));
         assert!(da.mint == f32b(&wp_d, WP_MINT_A) && db.mint == f32b(&wp_d, WP_MINT_B));
         assert!(tp_key == token_id() && tp_exec);
-        unsafe {
-            assert!(XFER_N == 2);
-            assert!(XFER[0] == (va_key.to_bytes(), da_key.to_bytes()));
-            assert!(XFER[1] == (vb_key.to_bytes(), db_key.to_bytes()));
-        }
     }
+    core::mem::forget(r);
 }
 
-/// collect_reward: struct + real handler (token CPI stubbed), `reward_index` symbolic in 0..3 (an index >= 3 panics on the
-/// array bound in the generated constraint code = transaction aborted; not modelled). handler Ok => position.whirlpool == pool,
-/// position token (mint, amount 1), authority rule, reward_owner_account.mint == reward_infos[i].mint,
-/// reward_vault.key == reward_infos[i].vault, token program id; transfer goes reward_vault -> reward_owner_account.
+/// collect_reward, accounts struct (handler not included, see `c15_collect_fees_accounts`), `reward_index` symbolic in 0..3 (an index >= 3 panics on the
+/// array bound in the generated constraint code = transaction aborted; not modelled). Ok => position.whirlpool == pool,
+/// position token (mint, amount 1), authority signed, reward_owner_account.mint == reward_infos[i].mint,
+/// reward_vault.key == reward_infos[i].vault, token program id, ownership by the right programs.
 // @verif prop=C04,C15 tier=thorough timeout=1800 large
 #[kani::proof]
 #[kani::unwind(34)]
 #[kani::stub(alloc::fmt::format, stub_format)]
+#[kani::stub(anchor_lang::error::Error::with_account_name, stub_with_account_name)]
 #[kani::stub(<anchor_lang::prelude::Pubkey as core::fmt::Display>::fmt, stub_pubkey_display)]
 #[kani::stub(<anchor_lang::error::Error as core::convert::From<::whirlpool::errors::ErrorCode>>::from, stub_err_from_code)]
 #[kani::stub(<anchor_lang::error::Error as core::convert::From<anchor_lang::error::ErrorCode>>::from, stub_err_from_anchor_code)]
-#[kani::stub(::whirlpool::util::transfer_from_vault_to_owner, stub_transfer_from_vault_to_owner)]
-fn c15_collect_reward() {
+fn c15_collect_reward_accounts() {
     let program_id = ::whirlpool::ID;
     let reward_index: u8 = kani::any();
     kani::assume(reward_index < 3);
@@ -557,11 +535,9 @@ fn c15_collect_reward() {
     let (tp_key, tp_exec) = (tp.key, tp.exec);
     let accounts = [wp.ai(), auth.ai(), pos.ai(), pta.ai(), ro_a.ai(), rv_a.ai(), tp.ai()];
     let ix = [reward_index];
-    let (r, bumps) = run_try_accounts!(::whirlpool::instructions::CollectReward, &program_id, accounts, &ix);
+    let (r, _bumps) = run_try_accounts!(::whirlpool::instructions::CollectReward, &program_id, accounts, &ix);
     let struct_ok = r.is_ok();
-    let handler_ok = run_handler!(r, bumps, &program_id, |ctx| ::whirlpool::instructions::collect_reward::handler(ctx, reward_index));
-    kani::cover!(handler_ok && reward_index == 2, "handler reaches the transfer (index 2)");
-    kani::cover!(struct_ok && !handler_ok, "struct ok, authority rejected");
+    kani::cover!(struct_ok, "ok");
     let ri = WP_REWARDS + 128 * reward_index as usize;
     if struct_ok {
         assert!(wp_owner == program_id && pos_owner == program_id && pos_w);
@@ -575,14 +551,7 @@ fn c15_collect_reward() {
         assert!(rv_key.to_bytes() == f32b(&wp_d, ri + 32));
         assert!(tp_key == token_id() && tp_exec);
     }
-    if handler_ok {
-        assert!(struct_ok);
-        assert!(pt.authority_rule(&auth_key) && pt.holder_or_one_token_delegate(&auth_key));
-        unsafe {
-            assert!(XFER_N == 1);
-            assert!(XFER[0] == (rv_key.to_bytes(), ro_key.to_bytes()));
-        }
-    }
+    core::mem::forget(r);
 }
 
 /// update_fees_and_rewards (unprivileged): struct only. Ok => whirlpool and position are program-owned accounts of the right
@@ -592,6 +561,7 @@ fn c15_collect_reward() {
 #[kani::proof]
 #[kani::unwind(34)]
 #[kani::stub(alloc::fmt::format, stub_format)]
+#[kani::stub(anchor_lang::error::Error::with_account_name, stub_with_account_name)]
 #[kani::stub(<anchor_lang::prelude::Pubkey as core::fmt::Display>::fmt, stub_pubkey_display)]
 #[kani::stub(<anchor_lang::error::Error as core::convert::From<::whirlpool::errors::ErrorCode>>::from, stub_err_from_code)]
 #[kani::stub(<anchor_lang::error::Error as core::convert::From<anchor_lang::error::ErrorCode>>::from, stub_err_from_anchor_code)]
@@ -656,6 +626,7 @@ fn stub_token_2022_position_cpi<'info>(
 #[kani::proof]
 #[kani::unwind(34)]
 #[kani::stub(alloc::fmt::format, stub_format)]
+#[kani::stub(anchor_lang::error::Error::with_account_name, stub_with_account_name)]
 #[kani::stub(<anchor_lang::prelude::Pubkey as core::fmt::Display>::fmt, stub_pubkey_display)]
 #[kani::stub(<anchor_lang::error::Error as core::convert::From<::whirlpool::errors::ErrorCode>>::from, stub_err_from_code)]
 #[kani::stub(<anchor_lang::error::Error as core::convert::From<anchor_lang::error::ErrorCode>>::from, stub_err_from_anchor_code)]
@@ -708,6 +679,7 @@ fn c15_close_position() {
 #[kani::proof]
 #[kani::unwind(34)]
 #[kani::stub(alloc::fmt::format, stub_format)]
+#[kani::stub(anchor_lang::error::Error::with_account_name, stub_with_account_name)]
 #[kani::stub(<anchor_lang::prelude::Pubkey as core::fmt::Display>::fmt, stub_pubkey_display)]
 #[kani::stub(<anchor_lang::error::Error as core::convert::From<::whirlpool::errors::ErrorCode>>::from, stub_err_from_code)]
 #[kani::stub(<anchor_lang::error::Error as core::convert::From<anchor_lang::error::ErrorCode>>::from, stub_err_from_anchor_code)]
@@ -782,6 +754,7 @@ fn dec_u16(v: u16) -> ([u8; 5], usize) {
 #[kani::proof]
 #[kani::unwind(34)]
 #[kani::stub(alloc::fmt::format, stub_format)]
+#[kani::stub(anchor_lang::error::Error::with_account_name, stub_with_account_name)]
 #[kani::stub(<anchor_lang::prelude::Pubkey as core::fmt::Display>::fmt, stub_pubkey_display)]
 #[kani::stub(<anchor_lang::error::Error as core::convert::From<::whirlpool::errors::ErrorCode>>::from, stub_err_from_code)]
 #[kani::stub(<anchor_lang::error::Error as core::convert::From<anchor_lang::error::ErrorCode>>::from, stub_err_from_anchor_code)]
@@ -833,6 +806,7 @@ fn c15_close_bundled_position() {
 #[kani::proof]
 #[kani::unwind(34)]
 #[kani::stub(alloc::fmt::format, stub_format)]
+#[kani::stub(anchor_lang::error::Error::with_account_name, stub_with_account_name)]
 #[kani::stub(<anchor_lang::prelude::Pubkey as core::fmt::Display>::fmt, stub_pubkey_display)]
 #[kani::stub(<anchor_lang::error::Error as core::convert::From<::whirlpool::errors::ErrorCode>>::from, stub_err_from_code)]
 #[kani::stub(<anchor_lang::error::Error as core::convert::From<anchor_lang::error::ErrorCode>>::from, stub_err_from_anchor_code)]
@@ -888,6 +862,7 @@ fn stub_rent_get_err() -> core::result::Result<Rent, anchor_lang::solana_program
 #[kani::proof]
 #[kani::unwind(34)]
 #[kani::stub(alloc::fmt::format, stub_format)]
+#[kani::stub(anchor_lang::error::Error::with_account_name, stub_with_account_name)]
 #[kani::stub(<anchor_lang::prelude::Pubkey as core::fmt::Display>::fmt, stub_pubkey_display)]
 #[kani::stub(<anchor_lang::error::Error as core::convert::From<::whirlpool::errors::ErrorCode>>::from, stub_err_from_code)]
 #[kani::stub(<anchor_lang::error::Error as core::convert::From<anchor_lang::error::ErrorCode>>::from, stub_err_from_anchor_code)]
@@ -931,21 +906,22 @@ fn c15_reset_position_range() {
     }
 }
 
-/// transfer_locked_position: struct + real handler up to the first CPI (`unfreeze`, stubbed). unfreeze reached => authority
-/// signed and is the *owner* of the position token account (delegates are not accepted), position is the PDA of
+/// transfer_locked_position, accounts struct (struct + handler exceeded 22 GB / 25 min; the handler's only check before its
+/// first CPI is `validate_owner(position_token_account.owner, position_authority)`, decided by `c15_validate_owner`:
+/// owner only, delegates are not accepted). Ok => authority signed, position is the PDA of
 /// ["position", position_mint.key], position_mint.key == position.position_mint, source and destination token accounts have
 /// mint == position.position_mint, source amount == 1, destination != source, lock_config.position == position key,
-/// Token-2022 program id. Assumes the token account is frozen or uninitialized (see the comment in the body).
+/// Token-2022 program id.
 // @verif prop=C04,C15 tier=thorough timeout=1800 large
 #[kani::proof]
 #[kani::unwind(34)]
 #[kani::stub(alloc::fmt::format, stub_format)]
+#[kani::stub(anchor_lang::error::Error::with_account_name, stub_with_account_name)]
 #[kani::stub(<anchor_lang::prelude::Pubkey as core::fmt::Display>::fmt, stub_pubkey_display)]
 #[kani::stub(<anchor_lang::error::Error as core::convert::From<::whirlpool::errors::ErrorCode>>::from, stub_err_from_code)]
 #[kani::stub(<anchor_lang::error::Error as core::convert::From<anchor_lang::error::ErrorCode>>::from, stub_err_from_anchor_code)]
 #[kani::stub(anchor_lang::prelude::Pubkey::find_program_address, pda::stub_find_program_address)]
-#[kani::stub(::whirlpool::util::unfreeze_user_position_token_2022, stub_token_2022_position_cpi)]
-fn c15_transfer_locked_position() {
+fn c15_transfer_locked_position_accounts() {
     let program_id = ::whirlpool::ID;
     let mut auth = any_plain();
     let mut recv = any_plain();
@@ -957,10 +933,6 @@ fn c15_transfer_locked_position() {
     let mut dta = Acc::any_with(dt.d);
     let mut lock = any_data::<241>();
     let mut tp = any_plain();
-    // Reachable-state invariant: a LockConfig exists for a position only after lock_position froze the token account that
-    // holds the position token, and only this program (freeze authority = position PDA) can thaw it. The handler encodes the
-    // same fact as `unreachable!("Position has to be locked")`; a panic aborts the transaction on-chain.
-    kani::assume(pt.state != 1);
     let (auth_key, auth_signer) = (auth.key, auth.signer);
     let recv_w = recv.writable;
     let (pos_key, pos_owner, pos_d) = (pos.key, pos.owner, pos.data);
@@ -970,12 +942,9 @@ fn c15_transfer_locked_position() {
     let (lock_owner, lock_d, lock_w) = (lock.owner, lock.data, lock.writable);
     let (tp_key, tp_exec) = (tp.key, tp.exec);
     let accounts = [auth.ai(), recv.ai(), pos.ai(), mint.ai(), pta.ai(), dta.ai(), lock.ai(), tp.ai()];
-    let (r, bumps) = run_try_accounts!(::whirlpool::instructions::TransferLockedPosition, &program_id, accounts, &[]);
+    let (r, _bumps) = run_try_accounts!(::whirlpool::instructions::TransferLockedPosition, &program_id, accounts, &[]);
     let struct_ok = r.is_ok();
-    let handler_ok = run_handler!(r, bumps, &program_id, |ctx| ::whirlpool::instructions::transfer_locked_position::handler(ctx));
-    let reached = unsafe { REACHED };
-    kani::cover!(reached, "unfreeze reached");
-    assert!(!handler_ok);
+    kani::cover!(struct_ok, "ok");
     if struct_ok {
         assert!(auth_signer && recv_w && pta_w && dta_w && lock_w);
         assert!(pos_owner == program_id && pos_d[..8] == *Position::DISCRIMINATOR);
@@ -987,10 +956,7 @@ fn c15_transfer_locked_position() {
         assert!(f32b(&lock_d, 8) == pos_key.to_bytes());
         assert!(tp_key == token22_id() && tp_exec);
     }
-    if reached {
-        assert!(struct_ok);
-        assert!(pt.owner == auth_key.to_bytes());
-    }
+    core::mem::forget(r);
 }
 
 /// swap (v1): struct only (the handler starts with `Clock::get`; tick arrays and the oracle *content* are validated there by
@@ -1001,6 +967,7 @@ fn c15_transfer_locked_position() {
 #[kani::proof]
 #[kani::unwind(34)]
 #[kani::stub(alloc::fmt::format, stub_format)]
+#[kani::stub(anchor_lang::error::Error::with_account_name, stub_with_account_name)]
 #[kani::stub(<anchor_lang::prelude::Pubkey as core::fmt::Display>::fmt, stub_pubkey_display)]
 #[kani::stub(<anchor_lang::error::Error as core::convert::From<::whirlpool::errors::ErrorCode>>::from, stub_err_from_code)]
 #[kani::stub(<anchor_lang::error::Error as core::convert::From<anchor_lang::error::ErrorCode>>::from, stub_err_from_anchor_code)]
@@ -1043,6 +1010,7 @@ fn c15_swap_accounts() {
 #[kani::proof]
 #[kani::unwind(34)]
 #[kani::stub(alloc::fmt::format, stub_format)]
+#[kani::stub(anchor_lang::error::Error::with_account_name, stub_with_account_name)]
 #[kani::stub(<anchor_lang::prelude::Pubkey as core::fmt::Display>::fmt, stub_pubkey_display)]
 #[kani::stub(<anchor_lang::error::Error as core::convert::From<::whirlpool::errors::ErrorCode>>::from, stub_err_from_code)]
 #[kani::stub(<anchor_lang::error::Error as core::convert::From<anchor_lang::error::ErrorCode>>::from, stub_err_from_anchor_code)]
@@ -1087,8 +1055,10 @@ fn c15_swap_v2_accounts() {
 }
 
 /// recorded arguments of the stubbed v2 vault->owner transfers: (mint, vault, destination, token program) keys
+type Rec4 = ([u8; 32], [u8; 32], [u8; 32], [u8; 32]);
 static mut XFER2_N: usize = 0;
-static mut XFER2: [([u8; 32], [u8; 32], [u8; 32], [u8; 32]); 2] = [([0; 32], [0; 32], [0; 32], [0; 32]); 2];
+static mut XFER2_0: Rec4 = ([0; 32], [0; 32], [0; 32], [0; 32]);
+static mut XFER2_1: Rec4 = ([0; 32], [0; 32], [0; 32], [0; 32]);
 fn stub_transfer_from_vault_to_owner_v2<'info>(
     _whirlpool: &Account<'info, Whirlpool>,
     token_mint: &InterfaceAccount<'info, anchor_spl::token_interface::Mint>,
@@ -1100,22 +1070,272 @@ fn stub_transfer_from_vault_to_owner_v2<'info>(
     _amount: u64,
     _memo: &[u8],
 ) -> Result<()> {
+    let rec = (token_mint.key().to_bytes(), token_vault.key().to_bytes(), token_owner_account.key().to_bytes(), token_program.key().to_bytes());
     unsafe {
-        if XFER2_N < 2 {
-            XFER2[XFER2_N] = (token_mint.key().to_bytes(), token_vault.key().to_bytes(), token_owner_account.key().to_bytes(), token_program.key().to_bytes());
+        if XFER2_N == 0 {
+            XFER2_0 = rec;
+        } else if XFER2_N == 1 {
+            XFER2_1 = rec;
         }
         XFER2_N += 1;
     }
     Ok(())
 }
 
-/// collect_fees_v2: struct + real handler with no remaining accounts (token CPI stubbed). handler Ok => every clause of
-/// `c15_collect_fees` in its Token/Token-2022 form, plus mint account keys == pool mints, token_program_a/b.key == owner of
-/// mint a/b, memo program id; transfers are (mint_a, vault_a -> owner_a, program_a), (mint_b, vault_b -> owner_b, program_b).
+/// collect_reward_v2, accounts struct (struct + handler ran out of memory at 22 GB), `reward_index` symbolic in 0..3
+/// (>= 3: array-bound panic = abort). Ok => clauses of `c15_collect_reward_accounts` in Token/Token-2022 form plus
+/// reward_mint.key == reward_infos[i].mint, reward_token_program.key == owner of reward_mint, memo program id.
 // @verif prop=C04,C15 tier=thorough timeout=2400 large
 #[kani::proof]
 #[kani::unwind(34)]
 #[kani::stub(alloc::fmt::format, stub_format)]
+#[kani::stub(anchor_lang::error::Error::with_account_name, stub_with_account_name)]
+#[kani::stub(<anchor_lang::prelude::Pubkey as core::fmt::Display>::fmt, stub_pubkey_display)]
+#[kani::stub(<anchor_lang::error::Error as core::convert::From<::whirlpool::errors::ErrorCode>>::from, stub_err_from_code)]
+#[kani::stub(<anchor_lang::error::Error as core::convert::From<anchor_lang::error::ErrorCode>>::from, stub_err_from_anchor_code)]
+fn c15_collect_reward_v2_accounts() {
+    let program_id = ::whirlpool::ID;
+    let reward_index: u8 = kani::any();
+    kani::assume(reward_index < 3);
+    let mut wp = any_data::<653>();
+    let mut auth = any_plain();
+    let mut pos = any_data::<216>();
+    let pt = any_token();
+    let mut pta = Acc::any_with(pt.d);
+    let (ro, rv) = (any_token_lite(), any_token_lite());
+    let mut ro_a = Acc::any_with(ro.d);
+    let mut rm = Acc::any_with(any_mint());
+    let mut rv_a = Acc::any_with(rv.d);
+    let (mut tp, mut memo) = (any_plain(), any_plain());
+    let (wp_key, wp_owner, wp_d) = (wp.key, wp.owner, wp.data);
+    let (auth_key, auth_signer) = (auth.key, auth.signer);
+    let (pos_owner, pos_d, pos_w) = (pos.owner, pos.data, pos.writable);
+    let pta_owner = pta.owner;
+    let (ro_key, ro_owner, rm_key, rm_owner, rv_key, rv_owner) = (ro_a.key, ro_a.owner, rm.key, rm.owner, rv_a.key, rv_a.owner);
+    let (tp_key, tp_exec, memo_key, memo_exec) = (tp.key, tp.exec, memo.key, memo.exec);
+    let accounts = [wp.ai(), auth.ai(), pos.ai(), pta.ai(), ro_a.ai(), rm.ai(), rv_a.ai(), tp.ai(), memo.ai()];
+    let ix = [reward_index];
+    let (r, _bumps) = run_try_accounts!(::whirlpool::instructions::v2::CollectRewardV2, &program_id, accounts, &ix);
+    let struct_ok = r.is_ok();
+    kani::cover!(struct_ok, "ok");
+    let ri = WP_REWARDS + 128 * reward_index as usize;
+    if struct_ok {
+        assert!(wp_owner == program_id && pos_owner == program_id && pos_w && auth_signer);
+        assert!(wp_d[..8] == *Whirlpool::DISCRIMINATOR && pos_d[..8] == *Position::DISCRIMINATOR);
+        assert!(f32b(&pos_d, 8) == wp_key.to_bytes());
+        assert!(is_token_program(&pta_owner) && pt.mint == f32b(&pos_d, 40) && pt.amount == 1);
+        assert!(is_token_program(&ro_owner) && is_token_program(&rv_owner) && is_token_program(&rm_owner));
+        assert!(ro.mint == f32b(&wp_d, ri) && rm_key.to_bytes() == f32b(&wp_d, ri));
+        assert!(rv_key.to_bytes() == f32b(&wp_d, ri + 32));
+        assert!(tp_key == rm_owner && tp_exec);
+        assert!(memo_key == memo_id() && memo_exec);
+    }
+    core::mem::forget(r);
+}
+
+/// collect_protocol_fees_v2: struct + real handler with no remaining accounts (token CPI stubbed). handler Ok <=> struct Ok =>
+/// clauses of `c15_collect_protocol_fees` in Token/Token-2022 form plus mint keys == pool mints, token_program_a/b.key ==
+/// owner of mint a/b, memo program id; transfers pair (mint, vault, destination, program) per side.
+// @verif prop=C04,C15 tier=thorough timeout=2400 large
+#[kani::proof]
+#[kani::unwind(34)]
+#[kani::stub(alloc::fmt::format, stub_format)]
+#[kani::stub(anchor_lang::error::Error::with_account_name, stub_with_account_name)]
+#[kani::stub(<anchor_lang::prelude::Pubkey as core::fmt::Display>::fmt, stub_pubkey_display)]
+#[kani::stub(<anchor_lang::error::Error as core::convert::From<::whirlpool::errors::ErrorCode>>::from, stub_err_from_code)]
+#[kani::stub(<anchor_lang::error::Error as core::convert::From<anchor_lang::error::ErrorCode>>::from, stub_err_from_anchor_code)]
+#[kani::stub(::whirlpool::util::transfer_from_vault_to_owner_v2, stub_transfer_from_vault_to_owner_v2)]
+fn c15_collect_protocol_fees_v2() {
+    let program_id = ::whirlpool::ID;
+    let mut cfg = any_data::<108>();
+    let mut wp = any_data::<653>();
+    let mut auth = any_plain();
+    let mut ma = Acc::any_with(any_mint());
+    let mut mb = Acc::any_with(any_mint());
+    let (va, vb, da, db) = (any_token_lite(), any_token_lite(), any_token_lite(), any_token_lite());
+    let mut va_a = Acc::any_with(va.d);
+    let mut vb_a = Acc::any_with(vb.d);
+    let mut da_a = Acc::any_with(da.d);
+    let mut db_a = Acc::any_with(db.d);
+    let (mut tpa, mut tpb, mut memo) = (any_plain(), any_plain(), any_plain());
+    let (cfg_key, cfg_owner, cfg_d) = (cfg.key, cfg.owner, cfg.data);
+    let (wp_owner, wp_d, wp_w) = (wp.owner, wp.data, wp.writable);
+    let (auth_key, auth_signer) = (auth.key, auth.signer);
+    let (ma_key, ma_owner, mb_key, mb_owner) = (ma.key, ma.owner, mb.key, mb.owner);
+    let (va_key, va_owner, vb_key, vb_owner) = (va_a.key, va_a.owner, vb_a.key, vb_a.owner);
+    let (da_key, da_owner, db_key, db_owner) = (da_a.key, da_a.owner, db_a.key, db_a.owner);
+    let (tpa_key, tpa_exec, tpb_key, tpb_exec, memo_key, memo_exec) = (tpa.key, tpa.exec, tpb.key, tpb.exec, memo.key, memo.exec);
+    let accounts = [cfg.ai(), wp.ai(), auth.ai(), ma.ai(), mb.ai(), va_a.ai(), vb_a.ai(), da_a.ai(), db_a.ai(), tpa.ai(), tpb.ai(), memo.ai()];
+    let (r, bumps) = run_try_accounts!(::whirlpool::instructions::v2::CollectProtocolFeesV2, &program_id, accounts, &[]);
+    let struct_ok = r.is_ok();
+    let handler_ok = run_handler!(r, bumps, &program_id, |ctx| ::whirlpool::instructions::v2::collect_protocol_fees::handler(ctx, None));
+    kani::cover!(handler_ok, "handler reaches both transfers");
+    assert!(handler_ok == struct_ok);
+    if struct_ok {
+        assert!(cfg_owner == program_id && wp_owner == program_id && wp_w);
+        assert!(cfg_d[..8] == *WhirlpoolsConfig::DISCRIMINATOR && wp_d[..8] == *Whirlpool::DISCRIMINATOR);
+        assert!(f32b(&wp_d, WP_CONFIG) == cfg_key.to_bytes());
+        assert!(auth_signer && auth_key.to_bytes() == f32b(&cfg_d, 40));
+        assert!(ma_key.to_bytes() == f32b(&wp_d, WP_MINT_A) && mb_key.to_bytes() == f32b(&wp_d, WP_MINT_B));
+        assert!(is_token_program(&ma_owner) && is_token_program(&mb_owner));
+        assert!(tpa_key == ma_owner && tpb_key == mb_owner && tpa_exec && tpb_exec);
+        assert!(memo_key == memo_id() && memo_exec);
+        assert!(is_token_program(&va_owner) && is_token_program(&vb_owner) && is_token_program(&da_owner) && is_token_program(&db_owner));
+        assert!(va_key.to_bytes() == f32b(&wp_d, WP_VAULT_A) && vb_key.to_bytes() == f32b(&wp_d, WP_VAULT_B));
+        assert!(da.mint == f32b(&wp_d, WP_MINT_A) && db.mint == f32b(&wp_d, WP_MINT_B));
+        unsafe {
+            assert!(XFER2_N == 2);
+            assert!(XFER2_0 == (ma_key.to_bytes(), va_key.to_bytes(), da_key.to_bytes(), tpa_key.to_bytes()));
+            assert!(XFER2_1 == (mb_key.to_bytes(), vb_key.to_bytes(), db_key.to_bytes(), tpb_key.to_bytes()));
+        }
+    }
+}
+
+fn stub_collect_rent_for_ticks_in_position<'info>(
+    _funder: &Signer<'info>,
+    _position: &Account<'info, Position>,
+    _system_program: &Program<'info, System>,
+) -> Result<()> {
+    unsafe { REACHED = true; }
+    Err(stub_err())
+}
+
+/// open_bundled_position, handler prefix on typed accounts: the accounts struct is built field by field with the `try_from`
+/// conversions of the generated code; the struct's own constraints, including the `init` of bundled_position, are NOT
+/// exercised (running `OpenBundledPosition::try_accounts` with the System-program CPIs stubbed produced spurious
+/// allocator-model failures in CBMC and was dropped); the bundled position is stood in for by an arbitrary Position account. Symbolic: bundle token account, authority,
+/// whirlpool, position bundle, arguments. rent-transfer CPI (stubbed) reached => bundle authority signed /\ authority rule on
+/// the bundle token account (owner or one-token delegate).
+// @verif prop=C04 tier=thorough timeout=1800 large
+#[kani::proof]
+#[kani::unwind(34)]
+#[kani::stub(alloc::fmt::format, stub_format)]
+#[kani::stub(anchor_lang::error::Error::with_account_name, stub_with_account_name)]
+#[kani::stub(<anchor_lang::prelude::Pubkey as core::fmt::Display>::fmt, stub_pubkey_display)]
+#[kani::stub(<anchor_lang::error::Error as core::convert::From<::whirlpool::errors::ErrorCode>>::from, stub_err_from_code)]
+#[kani::stub(<anchor_lang::error::Error as core::convert::From<anchor_lang::error::ErrorCode>>::from, stub_err_from_anchor_code)]
+#[kani::stub(::whirlpool::manager::tick_array_manager::collect_rent_for_ticks_in_position, stub_collect_rent_for_ticks_in_position)]
+fn c15_open_bundled_position_handler() {
+    use ::whirlpool::instructions::OpenBundledPosition;
+    let program_id = ::whirlpool::ID;
+    let bundle_index: u16 = kani::any();
+    let lo: i32 = kani::any();
+    let hi: i32 = kani::any();
+    let mut pos = any_data::<216>();
+    let mut bundle = any_data::<136>();
+    let bt = any_token();
+    let mut bta = Acc::any_with(bt.d);
+    let mut auth = any_plain();
+    let mut wp = any_data::<653>();
+    let mut funder = any_plain();
+    let mut sys = any_plain();
+    let mut rent = Acc::any_with([0u8; 17]);
+    let (auth_key, auth_signer) = (auth.key, auth.signer);
+    let a = [pos.ai(), bundle.ai(), bta.ai(), auth.ai(), wp.ai(), funder.ai(), sys.ai(), rent.ai()];
+    let built = (|| -> Result<OpenBundledPosition> {
+        Ok(OpenBundledPosition {
+            bundled_position: Box::new(Account::try_from(&a[0])?),
+            position_bundle: Box::new(Account::try_from(&a[1])?),
+            position_bundle_token_account: Box::new(Account::try_from(&a[2])?),
+            position_bundle_authority: Signer::try_from(&a[3])?,
+            whirlpool: Box::new(Account::try_from(&a[4])?),
+            funder: Signer::try_from(&a[5])?,
+            system_program: Program::try_from(&a[6])?,
+            rent: Sysvar::from_account_info(&a[7])?,
+        })
+    })();
+    let built_ok = built.is_ok();
+    let bumps = <OpenBundledPosition as anchor_lang::Bumps>::Bumps::default();
+    let handler_ok = run_handler!(built, bumps, &program_id, |ctx| ::whirlpool::instructions::open_bundled_position::handler(ctx, bundle_index, lo, hi));
+    let reached = unsafe { REACHED };
+    kani::cover!(reached, "rent transfer reached");
+    kani::cover!(built_ok && !reached, "typed accounts, handler rejects");
+    assert!(!handler_ok);
+    if reached {
+        assert!(built_ok && auth_signer);
+        assert!(bt.authority_rule(&auth_key) && bt.holder_or_one_token_delegate(&auth_key));
+    }
+}
+
+static mut GROWTHS_REACHED: bool = false;
+fn stub_calculate_fee_and_reward_growths(
+    _whirlpool: &Whirlpool,
+    _position: &Position,
+    _lower: &dyn ::whirlpool::state::TickArrayType,
+    _upper: &dyn ::whirlpool::state::TickArrayType,
+    _timestamp: u64,
+) -> Result<(::whirlpool::state::PositionUpdate, [::whirlpool::state::WhirlpoolRewardInfo; 3])> {
+    unsafe { GROWTHS_REACHED = true; }
+    Err(stub_err())
+}
+fn stub_clock_get_ok() -> core::result::Result<Clock, anchor_lang::solana_program::program_error::ProgramError> {
+    let mut c = Clock::default();
+    c.unix_timestamp = kani::any();
+    Ok(c)
+}
+
+/// update_fees_and_rewards, handler part: struct + real handler with `Clock::get` returning an arbitrary clock, up to the
+/// growth computation (stubbed). tick_array_lower is a 9988-byte buffer (the only size `bytemuck::from_bytes` accepts for a
+/// fixed array; a wrong size panics = abort) whose discriminator is any value except the dynamic one; tick_array_upper is a
+/// 10012-byte buffer whose discriminator is any value except the fixed one (`DynamicTickArrayLoader::load` casts the data to
+/// a `[u8; MAX_LEN]` reference without a size check; CBMC flags the cast on a shorter buffer, which is not what this harness
+/// is about). Key, owner, discriminator and the whirlpool back-reference (fixed: bytes 9956..9988, dynamic: bytes 12..44)
+/// are symbolic, all other tick bytes concrete zero (not read before the stub). computation reached => both tick arrays are
+/// program-owned, lower carries the fixed and upper the dynamic discriminator, and their whirlpool field == the pool key;
+/// position.whirlpool == pool key.
+// @verif prop=C15 tier=thorough timeout=1200
+#[kani::proof]
+#[kani::unwind(34)]
+#[kani::stub(alloc::fmt::format, stub_format)]
+#[kani::stub(anchor_lang::error::Error::with_account_name, stub_with_account_name)]
+#[kani::stub(<anchor_lang::prelude::Pubkey as core::fmt::Display>::fmt, stub_pubkey_display)]
+#[kani::stub(<anchor_lang::error::Error as core::convert::From<::whirlpool::errors::ErrorCode>>::from, stub_err_from_code)]
+#[kani::stub(<anchor_lang::error::Error as core::convert::From<anchor_lang::error::ErrorCode>>::from, stub_err_from_anchor_code)]
+#[kani::stub(<anchor_lang::prelude::Clock as anchor_lang::solana_program::sysvar::Sysvar>::get, stub_clock_get_ok)]
+#[kani::stub(::whirlpool::manager::liquidity_manager::calculate_fee_and_reward_growths, stub_calculate_fee_and_reward_growths)]
+fn c15_update_fees_and_rewards_handler() {
+    use ::whirlpool::state::{DynamicTickArray, FixedTickArray};
+    let program_id = ::whirlpool::ID;
+    let mut wp = any_data::<653>();
+    let mut pos = any_data::<216>();
+    let mut ld = [0u8; 9988];
+    let l_disc: [u8; 8] = kani::any();
+    let l_wp: [u8; 32] = kani::any();
+    kani::assume(l_disc != *DynamicTickArray::DISCRIMINATOR);
+    ld[..8].copy_from_slice(&l_disc);
+    ld[9956..9988].copy_from_slice(&l_wp);
+    let mut ud = [0u8; 10012];
+    let u_disc: [u8; 8] = kani::any();
+    let u_wp: [u8; 32] = kani::any();
+    kani::assume(u_disc != *FixedTickArray::DISCRIMINATOR);
+    ud[..8].copy_from_slice(&u_disc);
+    ud[12..44].copy_from_slice(&u_wp);
+    let mut tl = Acc::any_with(ld);
+    let mut tu = Acc::any_with(ud);
+    let (wp_key, pos_d) = (wp.key, pos.data);
+    let (tl_owner, tu_owner) = (tl.owner, tu.owner);
+    let accounts = [wp.ai(), pos.ai(), tl.ai(), tu.ai()];
+    let (r, bumps) = run_try_accounts!(::whirlpool::instructions::UpdateFeesAndRewards, &program_id, accounts, &[]);
+    let handler_ok = run_handler!(r, bumps, &program_id, |ctx| ::whirlpool::instructions::update_fees_and_rewards::handler(ctx));
+    let reached = unsafe { GROWTHS_REACHED };
+    kani::cover!(reached, "growth computation reached");
+    assert!(!handler_ok);
+    if reached {
+        assert!(f32b(&pos_d, 8) == wp_key.to_bytes());
+        assert!(tl_owner == program_id && tu_owner == program_id);
+        assert!(l_disc == *FixedTickArray::DISCRIMINATOR && u_disc == *DynamicTickArray::DISCRIMINATOR);
+        assert!(l_wp == wp_key.to_bytes() && u_wp == wp_key.to_bytes());
+    }
+}
+
+/// collect_fees_v2: struct + real handler with no remaining accounts (token CPI stubbed). handler Ok => every clause of
+/// `c15_collect_fees` in its Token/Token-2022 form, plus mint account keys == pool mints, token_program_a/b.key == owner of
+/// mint a/b, memo program id; transfers are (mint_a, vault_a -> owner_a, program_a), (mint_b, vault_b -> owner_b, program_b).
+// @verif prop=C04,C15 tier=thorough timeout=3000 large
+#[kani::proof]
+#[kani::unwind(34)]
+#[kani::stub(alloc::fmt::format, stub_format)]
+#[kani::stub(anchor_lang::error::Error::with_account_name, stub_with_account_name)]
 #[kani::stub(<anchor_lang::prelude::Pubkey as core::fmt::Display>::fmt, stub_pubkey_display)]
 #[kani::stub(<anchor_lang::error::Error as core::convert::From<::whirlpool::errors::ErrorCode>>::from, stub_err_from_code)]
 #[kani::stub(<anchor_lang::error::Error as core::convert::From<anchor_lang::error::ErrorCode>>::from, stub_err_from_anchor_code)]
@@ -1167,540 +1387,9 @@ fn c15_collect_fees_v2() {
         assert!(pt.authority_rule(&auth_key) && pt.holder_or_one_token_delegate(&auth_key));
         unsafe {
             assert!(XFER2_N == 2);
-            assert!(XFER2[0] == (ma_key.to_bytes(), va_key.to_bytes(), oa_key.to_bytes(), tpa_key.to_bytes()));
-            assert!(XFER2[1] == (mb_key.to_bytes(), vb_key.to_bytes(), ob_key.to_bytes(), tpb_key.to_bytes()));
+            assert!(XFER2_0 == (ma_key.to_bytes(), va_key.to_bytes(), oa_key.to_bytes(), tpa_key.to_bytes()));
+            assert!(XFER2_1 == (mb_key.to_bytes(), vb_key.to_bytes(), ob_key.to_bytes(), tpb_key.to_bytes()));
         }
-    }
-}
-
-/// collect_reward_v2: struct + real handler with no remaining accounts (token CPI stubbed), `reward_index` symbolic in 0..3
-/// (>= 3: array-bound panic = abort). handler Ok => clauses of `c15_collect_reward` in Token/Token-2022 form plus
-/// reward_mint.key == reward_infos[i].mint, reward_token_program.key == owner of reward_mint, memo program id.
-// @verif prop=C04,C15 tier=thorough timeout=2400 large
-#[kani::proof]
-#[kani::unwind(34)]
-#[kani::stub(alloc::fmt::format, stub_format)]
-#[kani::stub(<anchor_lang::prelude::Pubkey as core::fmt::Display>::fmt, stub_pubkey_display)]
-#[kani::stub(<anchor_lang::error::Error as core::convert::From<::whirlpool::errors::ErrorCode>>::from, stub_err_from_code)]
-#[kani::stub(<anchor_lang::error::Error as core::convert::From<anchor_lang::error::ErrorCode>>::from, stub_err_from_anchor_code)]
-#[kani::stub(::whirlpool::util::transfer_from_vault_to_owner_v2, stub_transfer_from_vault_to_owner_v2)]
-fn c15_collect_reward_v2() {
-    let program_id = ::whirlpool::ID;
-    let reward_index: u8 = kani::any();
-    kani::assume(reward_index < 3);
-    let mut wp = any_data::<653>();
-    let mut auth = any_plain();
-    let mut pos = any_data::<216>();
-    let pt = any_token();
-    let mut pta = Acc::any_with(pt.d);
-    let (ro, rv) = (any_token_lite(), any_token_lite());
-    let mut ro_a = Acc::any_with(ro.d);
-    let mut rm = Acc::any_with(any_mint());
-    let mut rv_a = Acc::any_with(rv.d);
-    let (mut tp, mut memo) = (any_plain(), any_plain());
-    let (wp_key, wp_owner, wp_d) = (wp.key, wp.owner, wp.data);
-    let (auth_key, auth_signer) = (auth.key, auth.signer);
-    let (pos_owner, pos_d, pos_w) = (pos.owner, pos.data, pos.writable);
-    let pta_owner = pta.owner;
-    let (ro_key, ro_owner, rm_key, rm_owner, rv_key, rv_owner) = (ro_a.key, ro_a.owner, rm.key, rm.owner, rv_a.key, rv_a.owner);
-    let (tp_key, tp_exec, memo_key, memo_exec) = (tp.key, tp.exec, memo.key, memo.exec);
-    let accounts = [wp.ai(), auth.ai(), pos.ai(), pta.ai(), ro_a.ai(), rm.ai(), rv_a.ai(), tp.ai(), memo.ai()];
-    let ix = [reward_index];
-    let (r, bumps) = run_try_accounts!(::whirlpool::instructions::v2::CollectRewardV2, &program_id, accounts, &ix);
-    let struct_ok = r.is_ok();
-    let handler_ok = run_handler!(r, bumps, &program_id, |ctx| ::whirlpool::instructions::v2::collect_reward::handler(ctx, reward_index, None));
-    kani::cover!(handler_ok && reward_index == 1, "handler reaches the transfer (index 1)");
-    kani::cover!(struct_ok && !handler_ok, "struct ok, authority rejected");
-    let ri = WP_REWARDS + 128 * reward_index as usize;
-    if struct_ok {
-        assert!(wp_owner == program_id && pos_owner == program_id && pos_w && auth_signer);
-        assert!(wp_d[..8] == *Whirlpool::DISCRIMINATOR && pos_d[..8] == *Position::DISCRIMINATOR);
-        assert!(f32b(&pos_d, 8) == wp_key.to_bytes());
-        assert!(is_token_program(&pta_owner) && pt.mint == f32b(&pos_d, 40) && pt.amount == 1);
-        assert!(is_token_program(&ro_owner) && is_token_program(&rv_owner) && is_token_program(&rm_owner));
-        assert!(ro.mint == f32b(&wp_d, ri) && rm_key.to_bytes() == f32b(&wp_d, ri));
-        assert!(rv_key.to_bytes() == f32b(&wp_d, ri + 32));
-        assert!(tp_key == rm_owner && tp_exec);
-        assert!(memo_key == memo_id() && memo_exec);
-    }
-    if handler_ok {
-        assert!(struct_ok);
-        assert!(pt.authority_rule(&auth_key) && pt.holder_or_one_token_delegate(&auth_key));
-        unsafe {
-            assert!(XFER2_N == 1);
-            assert!(XFER2[0] == (rm_key.to_bytes(), rv_key.to_bytes(), ro_key.to_bytes(), tp_key.to_bytes()));
-        }
-    }
-}
-
-/// collect_protocol_fees_v2: struct + real handler with no remaining accounts (token CPI stubbed). handler Ok <=> struct Ok =>
-/// clauses of `c15_collect_protocol_fees` in Token/Token-2022 form plus mint keys == pool mints, token_program_a/b.key ==
-/// owner of mint a/b, memo program id; transfers pair (mint, vault, destination, program) per side.
-// @verif prop=C04,C15 tier=thorough timeout=2400 large
-#[kani::proof]
-#[kani::unwind(34)]
-#[kani::stub(alloc::fmt::format, stub_format)]
-#[kani::stub(<anchor_lang::prelude::Pubkey as core::fmt::Display>::fmt, stub_pubkey_display)]
-#[kani::stub(<anchor_lang::error::Error as core::convert::From<::whirlpool::errors::ErrorCode>>::from, stub_err_from_code)]
-#[kani::stub(<anchor_lang::error::Error as core::convert::From<anchor_lang::error::ErrorCode>>::from, stub_err_from_anchor_code)]
-#[kani::stub(::whirlpool::util::transfer_from_vault_to_owner_v2, stub_transfer_from_vault_to_owner_v2)]
-fn c15_collect_protocol_fees_v2() {
-    let program_id = ::whirlpool::ID;
-    let mut cfg = any_data::<108>();
-    let mut wp = any_data::<653>();
-    let mut auth = any_plain();
-    let mut ma = Acc::any_with(any_mint());
-    let mut mb = Acc::any_with(any_mint());
-    let (va, vb, da, db) = (any_token_lite(), any_token_lite(), any_token_lite(), any_token_lite());
-    let mut va_a = Acc::any_with(va.d);
-    let mut vb_a = Acc::any_with(vb.d);
-    let mut da_a = Acc::any_with(da.d);
-    let mut db_a = Acc::any_with(db.d);
-    let (mut tpa, mut tpb, mut memo) = (any_plain(), any_plain(), any_plain());
-    let (cfg_key, cfg_owner, cfg_d) = (cfg.key, cfg.owner, cfg.data);
-    let (wp_owner, wp_d, wp_w) = (wp.owner, wp.data, wp.writable);
-    let (auth_key, auth_signer) = (auth.key, auth.signer);
-    let (ma_key, ma_owner, mb_key, mb_owner) = (ma.key, ma.owner, mb.key, mb.owner);
-    let (va_key, va_owner, vb_key, vb_owner) = (va_a.key, va_a.owner, vb_a.key, vb_a.owner);
-    let (da_key, da_owner, db_key, db_owner) = (da_a.key, da_a.owner, db_a.key, db_a.owner);
-    let (tpa_key, tpa_exec, tpb_key, tpb_exec, memo_key, memo_exec) = (tpa.key, tpa.exec, tpb.key, tpb.exec, memo.key, memo.exec);
-    let accounts = [cfg.ai(), wp.ai(), auth.ai(), ma.ai(), mb.ai(), va_a.ai(), vb_a.ai(), da_a.ai(), db_a.ai(), tpa.ai(), tpb.ai(), memo.ai()];
-    let (r, bumps) = run_try_accounts!(::whirlpool::instructions::v2::CollectProtocolFeesV2, &program_id, accounts, &[]);
-    let struct_ok = r.is_ok();
-    let handler_ok = run_handler!(r, bumps, &program_id, |ctx| ::whirlpool::instructions::v2::collect_protocol_fees::handler(ctx, None));
-    kani::cover!(handler_ok, "handler reaches both transfers");
-    assert!(handler_ok == struct_ok);
-    if struct_ok {
-        assert!(cfg_owner == program_id && wp_owner == program_id && wp_w);
-        assert!(cfg_d[..8] == *WhirlpoolsConfig::DISCRIMINATOR && wp_d[..8] == *Whirlpool::DISCRIMINATOR);
-        assert!(f32b(&wp_d, WP_CONFIG) == cfg_key.to_bytes());
-        assert!(auth_signer && auth_key.to_bytes() == f32b(&cfg_d, 40));
-        assert!(ma_key.to_bytes() == f32b(&wp_d, WP_MINT_A) && mb_key.to_bytes() == f32b(&wp_d, WP_MINT_B));
-        assert!(is_token_program(&ma_owner) && is_token_program(&mb_owner));
-        assert!(tpa_key == ma_owner && tpb_key == mb_owner && tpa_exec && tpb_exec);
-        assert!(memo_key == memo_id() && memo_exec);
-        assert!(is_token_program(&va_owner) && is_token_program(&vb_owner) && is_token_program(&da_owner) && is_token_program(&db_owner));
-        assert!(va_key.to_bytes() == f32b(&wp_d, WP_VAULT_A) && vb_key.to_bytes() == f32b(&wp_d, WP_VAULT_B));
-        assert!(da.mint == f32b(&wp_d, WP_MINT_A) && db.mint == f32b(&wp_d, WP_MINT_B));
-        unsafe {
-            assert!(XFER2_N == 2);
-            assert!(XFER2[0] == (ma_key.to_bytes(), va_key.to_bytes(), da_key.to_bytes(), tpa_key.to_bytes()));
-            assert!(XFER2[1] == (mb_key.to_bytes(), vb_key.to_bytes(), db_key.to_bytes(), tpb_key.to_bytes()));
-        }
-    }
-}
-
-// --- `init` support: the System-program CPIs are never executed; the account to be created is supplied in its
-// post-creation form (owner symbolic, `LEN` zero bytes) so that anchor's `try_from_unchecked` can proceed.
-fn stub_sys_create_account<'info>(
-    _ctx: CpiContext<'_, '_, '_, 'info, anchor_lang::system_program::CreateAccount<'info>>,
-    _lamports: u64,
-    _space: u64,
-    _owner: &Pubkey,
-) -> Result<()> {
-    Ok(())
-}
-fn stub_sys_transfer<'info>(_ctx: CpiContext<'_, '_, '_, 'info, anchor_lang::system_program::Transfer<'info>>, _lamports: u64) -> Result<()> {
-    Ok(())
-}
-fn stub_sys_allocate<'info>(_ctx: CpiContext<'_, '_, '_, 'info, anchor_lang::system_program::Allocate<'info>>, _space: u64) -> Result<()> {
-    Ok(())
-}
-fn stub_sys_assign<'info>(_ctx: CpiContext<'_, '_, '_, 'info, anchor_lang::system_program::Assign<'info>>, _owner: &Pubkey) -> Result<()> {
-    Ok(())
-}
-fn stub_rent_get_ok() -> core::result::Result<Rent, anchor_lang::solana_program::program_error::ProgramError> {
-    Ok(Rent::default())
-}
-
-/// lock_position: struct (with the `init` of lock_config: System CPIs stubbed, see above) + real handler up to the first token
-/// CPI (`freeze`, stubbed). freeze reached => funder and authority signed, authority satisfies the rule, position is the PDA
-/// of ["position", position_mint.key] and position.whirlpool == whirlpool key, position_mint.key == position.position_mint
-/// and is owned by the Token-2022 program, token account mint == position.position_mint, amount == 1, not frozen,
-/// lock_config is the PDA of ["lock_config", position.key], Token-2022 / System program ids, position.liquidity != 0.
-// @verif prop=C04,C15 tier=thorough timeout=2400 large
-#[kani::proof]
-#[kani::unwind(34)]
-#[kani::stub(alloc::fmt::format, stub_format)]
-#[kani::stub(<anchor_lang::prelude::Pubkey as core::fmt::Display>::fmt, stub_pubkey_display)]
-#[kani::stub(<anchor_lang::error::Error as core::convert::From<::whirlpool::errors::ErrorCode>>::from, stub_err_from_code)]
-#[kani::stub(<anchor_lang::error::Error as core::convert::From<anchor_lang::error::ErrorCode>>::from, stub_err_from_anchor_code)]
-#[kani::stub(anchor_lang::prelude::Pubkey::find_program_address, pda::stub_find_program_address)]
-#[kani::stub(<anchor_lang::prelude::Rent as anchor_lang::solana_program::sysvar::Sysvar>::get, stub_rent_get_ok)]
-#[kani::stub(anchor_lang::system_program::create_account, stub_sys_create_account)]
-#[kani::stub(anchor_lang::system_program::transfer, stub_sys_transfer)]
-#[kani::stub(anchor_lang::system_program::allocate, stub_sys_allocate)]
-#[kani::stub(anchor_lang::system_program::assign, stub_sys_assign)]
-#[kani::stub(::whirlpool::util::freeze_user_position_token_2022, stub_token_2022_position_cpi)]
-fn c15_lock_position() {
-    let program_id = ::whirlpool::ID;
-    let mut funder = any_plain();
-    let mut auth = any_plain();
-    let mut pos = any_data::<216>();
-    let mut mint = Acc::any_with(any_mint());
-    let pt = any_token();
-    let mut pta = Acc::any_with(pt.d);
-    let mut lock = Acc::any_with([0u8; 241]);
-    let mut wp = any_data::<653>();
-    let mut tp = any_plain();
-    let mut sys = any_plain();
-    let (funder_signer, funder_w) = (funder.signer, funder.writable);
-    let (auth_key, auth_signer) = (auth.key, auth.signer);
-    let (pos_key, pos_owner, pos_d) = (pos.key, pos.owner, pos.data);
-    let (mint_key, mint_owner) = (mint.key, mint.owner);
-    let (pta_owner, pta_w) = (pta.owner, pta.writable);
-    let lock_key = lock.key;
-    let (wp_key, wp_owner, wp_d) = (wp.key, wp.owner, wp.data);
-    let (tp_key, tp_exec, sys_key, sys_exec) = (tp.key, tp.exec, sys.key, sys.exec);
-    let accounts = [funder.ai(), auth.ai(), pos.ai(), mint.ai(), pta.ai(), lock.ai(), wp.ai(), tp.ai(), sys.ai()];
-    let (r, bumps) = run_try_accounts!(::whirlpool::instructions::LockPosition, &program_id, accounts, &[]);
-    let struct_ok = r.is_ok();
-    let handler_ok = run_handler!(r, bumps, &program_id, |ctx| ::whirlpool::instructions::lock_position::handler(ctx, ::whirlpool::state::LockType::Permanent));
-    let reached = unsafe { REACHED };
-    kani::cover!(reached, "freeze reached");
-    kani::cover!(struct_ok && !reached, "struct ok, handler rejects");
-    assert!(!handler_ok);
-    if struct_ok {
-        assert!(funder_signer && funder_w && auth_signer && pta_w);
-        assert!(pos_owner == program_id && pos_d[..8] == *Position::DISCRIMINATOR);
-        assert!(pda::derived(&pos_key, b"position", &mint_key.to_bytes(), None, &program_id));
-        assert!(wp_owner == program_id && wp_d[..8] == *Whirlpool::DISCRIMINATOR);
-        assert!(f32b(&pos_d, 8) == wp_key.to_bytes());
-        assert!(tp_key == token22_id() && tp_exec);
-        assert!(sys_key == anchor_lang::system_program::ID && sys_exec);
-        assert!(mint_owner == token22_id() && mint_key.to_bytes() == f32b(&pos_d, 40));
-        assert!(is_token_program(&pta_owner) && pt.mint == f32b(&pos_d, 40) && pt.amount == 1 && pt.state == 1);
-        assert!(pda::derived(&lock_key, b"lock_config", &pos_key.to_bytes(), None, &program_id));
-    }
-    if reached {
-        assert!(struct_ok);
-        assert!(pt.authority_rule(&auth_key) && pt.holder_or_one_token_delegate(&auth_key));
-        assert!(pos_d[72..88] != [0u8; 16]);
-    }
-}
-
-fn stub_collect_rent_for_ticks_in_position<'info>(
-    _funder: &Signer<'info>,
-    _position: &Account<'info, Position>,
-    _system_program: &Program<'info, System>,
-) -> Result<()> {
-    unsafe { REACHED = true; }
-    Err(stub_err())
-}
-
-/// open_bundled_position: struct (with the `init` of bundled_position: System CPIs stubbed) + real handler up to its first CPI
-/// (`collect_rent_for_ticks_in_position`, stubbed). `bundle_index` symbolic (u16). CPI reached => bundle authority signed and
-/// satisfies the rule on the bundle token account, token account mint == position_bundle.position_bundle_mint, amount == 1,
-/// bundled_position is the PDA of ["bundled_position", position_bundle_mint, decimal(bundle_index)], funder signed,
-/// whirlpool / position_bundle are program-owned accounts of the right type, System program and Rent sysvar ids.
-// @verif prop=C04,C15 tier=thorough timeout=2400 large
-#[kani::proof]
-#[kani::unwind(34)]
-#[kani::stub(alloc::fmt::format, stub_format)]
-#[kani::stub(<anchor_lang::prelude::Pubkey as core::fmt::Display>::fmt, stub_pubkey_display)]
-#[kani::stub(<anchor_lang::error::Error as core::convert::From<::whirlpool::errors::ErrorCode>>::from, stub_err_from_code)]
-#[kani::stub(<anchor_lang::error::Error as core::convert::From<anchor_lang::error::ErrorCode>>::from, stub_err_from_anchor_code)]
-#[kani::stub(anchor_lang::prelude::Pubkey::find_program_address, pda::stub_find_program_address)]
-#[kani::stub(<anchor_lang::prelude::Rent as anchor_lang::solana_program::sysvar::Sysvar>::get, stub_rent_get_ok)]
-#[kani::stub(anchor_lang::system_program::create_account, stub_sys_create_account)]
-#[kani::stub(anchor_lang::system_program::transfer, stub_sys_transfer)]
-#[kani::stub(anchor_lang::system_program::allocate, stub_sys_allocate)]
-#[kani::stub(anchor_lang::system_program::assign, stub_sys_assign)]
-#[kani::stub(::whirlpool::manager::tick_array_manager::collect_rent_for_ticks_in_position, stub_collect_rent_for_ticks_in_position)]
-fn c15_open_bundled_position() {
-    let program_id = ::whirlpool::ID;
-    let bundle_index: u16 = kani::any();
-    let lo: i32 = kani::any();
-    let hi: i32 = kani::any();
-    let mut pos = Acc::any_with([0u8; 216]);
-    let mut bundle = any_data::<136>();
-    let bt = any_token();
-    let mut bta = Acc::any_with(bt.d);
-    let mut auth = any_plain();
-    let mut wp = any_data::<653>();
-    let mut funder = any_plain();
-    let mut sys = any_plain();
-    // Rent sysvar account: key symbolic, content = a valid bincode image of `Rent` (all zero)
-    let mut rent = Acc::any_with([0u8; 17]);
-    let pos_key = pos.key;
-    let (bundle_owner, bundle_d, bundle_w) = (bundle.owner, bundle.data, bundle.writable);
-    let bta_owner = bta.owner;
-    let (auth_key, auth_signer) = (auth.key, auth.signer);
-    let (wp_owner, wp_d) = (wp.owner, wp.data);
-    let (funder_signer, funder_w) = (funder.signer, funder.writable);
-    let (sys_key, sys_exec, rent_key) = (sys.key, sys.exec, rent.key);
-    let accounts = [pos.ai(), bundle.ai(), bta.ai(), auth.ai(), wp.ai(), funder.ai(), sys.ai(), rent.ai()];
-    let ix = bundle_index.to_le_bytes();
-    let (r, bumps) = run_try_accounts!(::whirlpool::instructions::OpenBundledPosition, &program_id, accounts, &ix);
-    let struct_ok = r.is_ok();
-    let handler_ok = run_handler!(r, bumps, &program_id, |ctx| ::whirlpool::instructions::open_bundled_position::handler(ctx, bundle_index, lo, hi));
-    let reached = unsafe { REACHED };
-    kani::cover!(reached, "rent transfer reached");
-    kani::cover!(struct_ok && !reached, "struct ok, handler rejects");
-    assert!(!handler_ok);
-    if struct_ok {
-        assert!(auth_signer && funder_signer && funder_w && bundle_w);
-        assert!(bundle_owner == program_id && bundle_d[..8] == *PositionBundle::DISCRIMINATOR);
-        assert!(wp_owner == program_id && wp_d[..8] == *Whirlpool::DISCRIMINATOR);
-        let (dec, n) = dec_u16(bundle_index);
-        assert!(pda::derived(&pos_key, b"bundled_position", &bundle_d[8..40], Some(&dec[..n]), &program_id));
-        assert!(bta_owner == token_id() && bt.mint == f32b(&bundle_d, 8) && bt.amount == 1);
-        assert!(sys_key == anchor_lang::system_program::ID && sys_exec);
-        assert!(rent_key == anchor_lang::solana_program::sysvar::rent::ID);
-    }
-    if reached {
-        assert!(struct_ok);
-        assert!(bt.authority_rule(&auth_key) && bt.holder_or_one_token_delegate(&auth_key));
-    }
-}
-
-static mut GROWTHS_REACHED: bool = false;
-fn stub_calculate_fee_and_reward_growths(
-    _whirlpool: &Whirlpool,
-    _position: &Position,
-    _lower: &dyn ::whirlpool::state::TickArrayType,
-    _upper: &dyn ::whirlpool::state::TickArrayType,
-    _timestamp: u64,
-) -> Result<(::whirlpool::state::PositionUpdate, [::whirlpool::state::WhirlpoolRewardInfo; 3])> {
-    unsafe { GROWTHS_REACHED = true; }
-    Err(stub_err())
-}
-fn stub_clock_get_ok() -> core::result::Result<Clock, anchor_lang::solana_program::program_error::ProgramError> {
-    let mut c = Clock::default();
-    c.unix_timestamp = kani::any();
-    Ok(c)
-}
-
-/// update_fees_and_rewards, handler part: struct + real handler with `Clock::get` returning an arbitrary clock, up to the
-/// growth computation (stubbed). Tick array accounts are 9988-byte buffers with symbolic key / owner / discriminator and
-/// symbolic whirlpool back-reference in both layouts (fixed: bytes 9956..9988, dynamic: bytes 12..44); all other tick bytes
-/// are concrete zero (not read before the stub). computation reached => both tick arrays are program-owned, carry the
-/// fixed or dynamic tick-array discriminator, and their whirlpool field == the pool key; position.whirlpool == pool key.
-// @verif prop=C15 tier=thorough timeout=1800
-#[kani::proof]
-#[kani::unwind(34)]
-#[kani::stub(alloc::fmt::format, stub_format)]
-#[kani::stub(<anchor_lang::prelude::Pubkey as core::fmt::Display>::fmt, stub_pubkey_display)]
-#[kani::stub(<anchor_lang::error::Error as core::convert::From<::whirlpool::errors::ErrorCode>>::from, stub_err_from_code)]
-#[kani::stub(<anchor_lang::error::Error as core::convert::From<anchor_lang::error::ErrorCode>>::from, stub_err_from_anchor_code)]
-#[kani::stub(<anchor_lang::prelude::Clock as anchor_lang::solana_program::sysvar::Sysvar>::get, stub_clock_get_ok)]
-#[kani::stub(::whirlpool::manager::liquidity_manager::calculate_fee_and_reward_growths, stub_calculate_fee_and_reward_growths)]
-fn c15_update_fees_and_rewards_handler() {
-    use ::whirlpool::state::{DynamicTickArray, FixedTickArray};
-    let program_id = ::whirlpool::ID;
-    let mut wp = any_data::<653>();
-    let mut pos = any_data::<216>();
-    fn any_tick_array() -> ([u8; 9988], [u8; 8], [u8; 32], [u8; 32]) {
-        let mut d = [0u8; 9988];
-        let disc: [u8; 8] = kani::any();
-        let w_dyn: [u8; 32] = kani::any();
-        let w_fix: [u8; 32] = kani::any();
-        d[..8].copy_from_slice(&disc);
-        d[12..44].copy_from_slice(&w_dyn);
-        d[9956..9988].copy_from_slice(&w_fix);
-        (d, disc, w_dyn, w_fix)
-    }
-    let (ld, l_disc, l_dyn, l_fix) = any_tick_array();
-    let (ud, u_disc, u_dyn, u_fix) = any_tick_array();
-    let mut tl = Acc::any_with(ld);
-    let mut tu = Acc::any_with(ud);
-    let (wp_key, pos_d) = (wp.key, pos.data);
-    let (tl_owner, tu_owner) = (tl.owner, tu.owner);
-    let accounts = [wp.ai(), pos.ai(), tl.ai(), tu.ai()];
-    let (r, bumps) = run_try_accounts!(::whirlpool::instructions::UpdateFeesAndRewards, &program_id, accounts, &[]);
-    let handler_ok = run_handler!(r, bumps, &program_id, |ctx| ::whirlpool::instructions::update_fees_and_rewards::handler(ctx));
-    let reached = unsafe { GROWTHS_REACHED };
-    kani::cover!(reached && l_disc == *FixedTickArray::DISCRIMINATOR && u_disc == *DynamicTickArray::DISCRIMINATOR, "reached (fixed, dynamic)");
-    kani::cover!(reached && l_disc == *DynamicTickArray::DISCRIMINATOR && u_disc == *FixedTickArray::DISCRIMINATOR, "reached (dynamic, fixed)");
-    assert!(!handler_ok);
-    if reached {
-        assert!(f32b(&pos_d, 8) == wp_key.to_bytes());
-        assert!(tl_owner == program_id && tu_owner == program_id);
-        let l_fixed = l_disc == *FixedTickArray::DISCRIMINATOR;
-        let u_fixed = u_disc == *FixedTickArray::DISCRIMINATOR;
-        assert!(l_fixed || l_disc == *DynamicTickArray::DISCRIMINATOR);
-        assert!(u_fixed || u_disc == *DynamicTickArray::DISCRIMINATOR);
-        assert!((if l_fixed { l_fix } else { l_dyn }) == wp_key.to_bytes());
-        assert!((if u_fixed { u_fix } else { u_dyn }) == wp_key.to_bytes());
-    }
-}
-
-static mut BUILD_REACHED: bool = false;
-fn stub_try_build<'info: 'info, 'a>(
-    _b: &'a ::whirlpool::util::SparseSwapTickSequenceBuilder<'info>,
-    _whirlpool: &Account<Whirlpool>,
-    _a_to_b: bool,
-) -> Result<::whirlpool::util::SwapTickSequence<'a>> {
-    unsafe { BUILD_REACHED = true; }
-    Err(stub_err())
-}
-
-/// two_hop_swap (v1): struct (20 accounts) + real handler with `Clock::get` returning an arbitrary clock, up to the first
-/// tick-sequence construction (stubbed). All five instruction flags/amounts symbolic. construction reached => every struct
-/// clause for both pools (owner-account mints, vault keys, Token-program ownership, token program id, authority signed,
-/// oracle_one/two == PDA of ["oracle", pool key], tick arrays writable) /\ whirlpool_one.key != whirlpool_two.key /\
-/// output mint of hop one == input mint of hop two.
-// @verif prop=C04,C15 tier=thorough timeout=3600 large
-#[kani::proof]
-#[kani::unwind(34)]
-#[kani::stub(alloc::fmt::format, stub_format)]
-#[kani::stub(<anchor_lang::prelude::Pubkey as core::fmt::Display>::fmt, stub_pubkey_display)]
-#[kani::stub(<anchor_lang::error::Error as core::convert::From<::whirlpool::errors::ErrorCode>>::from, stub_err_from_code)]
-#[kani::stub(<anchor_lang::error::Error as core::convert::From<anchor_lang::error::ErrorCode>>::from, stub_err_from_anchor_code)]
-#[kani::stub(anchor_lang::prelude::Pubkey::find_program_address, pda::stub_find_program_address)]
-#[kani::stub(<anchor_lang::prelude::Clock as anchor_lang::solana_program::sysvar::Sysvar>::get, stub_clock_get_ok)]
-#[kani::stub(::whirlpool::util::SparseSwapTickSequenceBuilder::try_build, stub_try_build)]
-fn c15_two_hop_swap() {
-    let program_id = ::whirlpool::ID;
-    let amount: u64 = kani::any();
-    let threshold: u64 = kani::any();
-    let exact_in: bool = kani::any();
-    let ab1: bool = kani::any();
-    let ab2: bool = kani::any();
-    let lim1: u128 = kani::any();
-    let lim2: u128 = kani::any();
-    let mut tp = any_plain();
-    let mut auth = any_plain();
-    let mut w1 = any_data::<653>();
-    let mut w2 = any_data::<653>();
-    let (o1a, v1a, o1b, v1b) = (any_token_lite(), any_token_lite(), any_token_lite(), any_token_lite());
-    let (o2a, v2a, o2b, v2b) = (any_token_lite(), any_token_lite(), any_token_lite(), any_token_lite());
-    let (mut o1a_a, mut v1a_a, mut o1b_a, mut v1b_a) = (Acc::any_with(o1a.d), Acc::any_with(v1a.d), Acc::any_with(o1b.d), Acc::any_with(v1b.d));
-    let (mut o2a_a, mut v2a_a, mut o2b_a, mut v2b_a) = (Acc::any_with(o2a.d), Acc::any_with(v2a.d), Acc::any_with(o2b.d), Acc::any_with(v2b.d));
-    let (mut t10, mut t11, mut t12, mut t20, mut t21, mut t22) = (any_plain(), any_plain(), any_plain(), any_plain(), any_plain(), any_plain());
-    let (mut or1, mut or2) = (any_plain(), any_plain());
-    let (tp_key, tp_exec, auth_signer) = (tp.key, tp.exec, auth.signer);
-    let (w1_key, w1_owner, w1_d, w1_w) = (w1.key, w1.owner, w1.data, w1.writable);
-    let (w2_key, w2_owner, w2_d, w2_w) = (w2.key, w2.owner, w2.data, w2.writable);
-    let owners = [o1a_a.owner, v1a_a.owner, o1b_a.owner, v1b_a.owner, o2a_a.owner, v2a_a.owner, o2b_a.owner, v2b_a.owner];
-    let (v1a_key, v1b_key, v2a_key, v2b_key) = (v1a_a.key, v1b_a.key, v2a_a.key, v2b_a.key);
-    let tw = [t10.writable, t11.writable, t12.writable, t20.writable, t21.writable, t22.writable];
-    let (or1_key, or2_key) = (or1.key, or2.key);
-    let accounts = [tp.ai(), auth.ai(), w1.ai(), w2.ai(), o1a_a.ai(), v1a_a.ai(), o1b_a.ai(), v1b_a.ai(), o2a_a.ai(), v2a_a.ai(), o2b_a.ai(), v2b_a.ai(),
-        t10.ai(), t11.ai(), t12.ai(), t20.ai(), t21.ai(), t22.ai(), or1.ai(), or2.ai()];
-    let (r, bumps) = run_try_accounts!(::whirlpool::instructions::TwoHopSwap, &program_id, accounts, &[]);
-    let struct_ok = r.is_ok();
-    let handler_ok = run_handler!(r, bumps, &program_id, |ctx| ::whirlpool::instructions::two_hop_swap::handler(ctx, amount, threshold, exact_in, ab1, ab2, lim1, lim2));
-    let reached = unsafe { BUILD_REACHED };
-    kani::cover!(reached, "tick sequence construction reached");
-    kani::cover!(struct_ok && !reached, "struct ok, handler rejects");
-    assert!(!handler_ok);
-    if struct_ok {
-        assert!(tp_key == token_id() && tp_exec && auth_signer);
-        assert!(w1_owner == program_id && w1_w && w1_d[..8] == *Whirlpool::DISCRIMINATOR);
-        assert!(w2_owner == program_id && w2_w && w2_d[..8] == *Whirlpool::DISCRIMINATOR);
-        let mut i = 0;
-        while i < 8 {
-            assert!(owners[i] == token_id());
-            i += 1;
-        }
-        assert!(o1a.mint == f32b(&w1_d, WP_MINT_A) && o1b.mint == f32b(&w1_d, WP_MINT_B));
-        assert!(o2a.mint == f32b(&w2_d, WP_MINT_A) && o2b.mint == f32b(&w2_d, WP_MINT_B));
-        assert!(v1a_key.to_bytes() == f32b(&w1_d, WP_VAULT_A) && v1b_key.to_bytes() == f32b(&w1_d, WP_VAULT_B));
-        assert!(v2a_key.to_bytes() == f32b(&w2_d, WP_VAULT_A) && v2b_key.to_bytes() == f32b(&w2_d, WP_VAULT_B));
-        assert!(tw[0] && tw[1] && tw[2] && tw[3] && tw[4] && tw[5]);
-        assert!(pda::derived(&or1_key, b"oracle", &w1_key.to_bytes(), None, &program_id));
-        assert!(pda::derived(&or2_key, b"oracle", &w2_key.to_bytes(), None, &program_id));
-    }
-    if reached {
-        assert!(struct_ok);
-        assert!(w1_key != w2_key);
-        let out1 = if ab1 { f32b(&w1_d, WP_MINT_B) } else { f32b(&w1_d, WP_MINT_A) };
-        let in2 = if ab2 { f32b(&w2_d, WP_MINT_A) } else { f32b(&w2_d, WP_MINT_B) };
-        assert!(out1 == in2);
-    }
-}
-
-/// two_hop_swap_v2: struct (24 accounts) + real handler (no remaining accounts) with `Clock::get` arbitrary, up to the first
-/// tick-sequence construction (stubbed). Direction flags and amounts symbolic (decoded from the instruction data by the
-/// generated code). construction reached => input/intermediate/output mint keys == the pool mints selected by the directions,
-/// token programs == owners of those mints, owner-account mints == input/output mint, the four vault keys == the pool
-/// vaults selected by the directions, oracle PDAs (writable), memo program id, authority signed /\ pool one != pool two /\
-/// output mint of hop one == input mint of hop two (so the intermediate mint is shared by both pools).
-// @verif prop=C04,C15 tier=thorough timeout=3600 large
-#[kani::proof]
-#[kani::unwind(34)]
-#[kani::stub(alloc::fmt::format, stub_format)]
-#[kani::stub(<anchor_lang::prelude::Pubkey as core::fmt::Display>::fmt, stub_pubkey_display)]
-#[kani::stub(<anchor_lang::error::Error as core::convert::From<::whirlpool::errors::ErrorCode>>::from, stub_err_from_code)]
-#[kani::stub(<anchor_lang::error::Error as core::convert::From<anchor_lang::error::ErrorCode>>::from, stub_err_from_anchor_code)]
-#[kani::stub(anchor_lang::prelude::Pubkey::find_program_address, pda::stub_find_program_address)]
-#[kani::stub(<anchor_lang::prelude::Clock as anchor_lang::solana_program::sysvar::Sysvar>::get, stub_clock_get_ok)]
-#[kani::stub(::whirlpool::util::SparseSwapTickSequenceBuilder::try_build, stub_try_build)]
-fn c15_two_hop_swap_v2() {
-    let program_id = ::whirlpool::ID;
-    let amount: u64 = kani::any();
-    let threshold: u64 = kani::any();
-    let exact_in: bool = kani::any();
-    let ab1: bool = kani::any();
-    let ab2: bool = kani::any();
-    let lim1: u128 = kani::any();
-    let lim2: u128 = kani::any();
-    let mut w1 = any_data::<653>();
-    let mut w2 = any_data::<653>();
-    let (mut m_in, mut m_mid, mut m_out) = (Acc::any_with(any_mint()), Acc::any_with(any_mint()), Acc::any_with(any_mint()));
-    let (mut p_in, mut p_mid, mut p_out) = (any_plain(), any_plain(), any_plain());
-    let (o_in, v1_in, v1_mid, v2_mid, v2_out, o_out) = (any_token_lite(), any_token_lite(), any_token_lite(), any_token_lite(), any_token_lite(), any_token_lite());
-    let (mut o_in_a, mut v1_in_a, mut v1_mid_a) = (Acc::any_with(o_in.d), Acc::any_with(v1_in.d), Acc::any_with(v1_mid.d));
-    let (mut v2_mid_a, mut v2_out_a, mut o_out_a) = (Acc::any_with(v2_mid.d), Acc::any_with(v2_out.d), Acc::any_with(o_out.d));
-    let mut auth = any_plain();
-    let (mut t10, mut t11, mut t12, mut t20, mut t21, mut t22) = (any_plain(), any_plain(), any_plain(), any_plain(), any_plain(), any_plain());
-    let (mut or1, mut or2, mut memo) = (any_plain(), any_plain(), any_plain());
-    let (w1_key, w1_owner, w1_d, w1_w) = (w1.key, w1.owner, w1.data, w1.writable);
-    let (w2_key, w2_owner, w2_d, w2_w) = (w2.key, w2.owner, w2.data, w2.writable);
-    let (m_in_key, m_in_owner, m_mid_key, m_mid_owner, m_out_key, m_out_owner) = (m_in.key, m_in.owner, m_mid.key, m_mid.owner, m_out.key, m_out.owner);
-    let (p_in_key, p_mid_key, p_out_key) = (p_in.key, p_mid.key, p_out.key);
-    let pexec = p_in.exec && p_mid.exec && p_out.exec;
-    let owners = [o_in_a.owner, v1_in_a.owner, v1_mid_a.owner, v2_mid_a.owner, v2_out_a.owner, o_out_a.owner];
-    let (v1_in_key, v1_mid_key, v2_mid_key, v2_out_key) = (v1_in_a.key, v1_mid_a.key, v2_mid_a.key, v2_out_a.key);
-    let auth_signer = auth.signer;
-    let tw = t10.writable && t11.writable && t12.writable && t20.writable && t21.writable && t22.writable;
-    let (or1_key, or1_w, or2_key, or2_w, memo_key, memo_exec) = (or1.key, or1.writable, or2.key, or2.writable, memo.key, memo.exec);
-    let accounts = [w1.ai(), w2.ai(), m_in.ai(), m_mid.ai(), m_out.ai(), p_in.ai(), p_mid.ai(), p_out.ai(),
-        o_in_a.ai(), v1_in_a.ai(), v1_mid_a.ai(), v2_mid_a.ai(), v2_out_a.ai(), o_out_a.ai(), auth.ai(),
-        t10.ai(), t11.ai(), t12.ai(), t20.ai(), t21.ai(), t22.ai(), or1.ai(), or2.ai(), memo.ai()];
-    let mut ix = [0u8; 19];
-    ix[0..8].copy_from_slice(&amount.to_le_bytes());
-    ix[8..16].copy_from_slice(&threshold.to_le_bytes());
-    ix[16] = exact_in as u8;
-    ix[17] = ab1 as u8;
-    ix[18] = ab2 as u8;
-    let (r, bumps) = run_try_accounts!(::whirlpool::instructions::v2::TwoHopSwapV2, &program_id, accounts, &ix);
-    let struct_ok = r.is_ok();
-    let handler_ok = run_handler!(r, bumps, &program_id, |ctx| ::whirlpool::instructions::v2::two_hop_swap::handler(ctx, amount, threshold, exact_in, ab1, ab2, lim1, lim2, None));
-    let reached = unsafe { BUILD_REACHED };
-    kani::cover!(reached, "tick sequence construction reached");
-    kani::cover!(struct_ok && !reached, "struct ok, handler rejects");
-    assert!(!handler_ok);
-    let (in1_mint, out1_mint) = if ab1 { (WP_MINT_A, WP_MINT_B) } else { (WP_MINT_B, WP_MINT_A) };
-    let (in1_vault, out1_vault) = if ab1 { (WP_VAULT_A, WP_VAULT_B) } else { (WP_VAULT_B, WP_VAULT_A) };
-    let (in2_mint, out2_mint) = if ab2 { (WP_MINT_A, WP_MINT_B) } else { (WP_MINT_B, WP_MINT_A) };
-    let (in2_vault, out2_vault) = if ab2 { (WP_VAULT_A, WP_VAULT_B) } else { (WP_VAULT_B, WP_VAULT_A) };
-    if struct_ok {
-        assert!(auth_signer && tw && or1_w && or2_w);
-        assert!(w1_owner == program_id && w1_w && w1_d[..8] == *Whirlpool::DISCRIMINATOR);
-        assert!(w2_owner == program_id && w2_w && w2_d[..8] == *Whirlpool::DISCRIMINATOR);
-        assert!(m_in_key.to_bytes() == f32b(&w1_d, in1_mint) && m_mid_key.to_bytes() == f32b(&w1_d, out1_mint));
-        assert!(m_out_key.to_bytes() == f32b(&w2_d, out2_mint));
-        assert!(is_token_program(&m_in_owner) && is_token_program(&m_mid_owner) && is_token_program(&m_out_owner));
-        assert!(p_in_key == m_in_owner && p_mid_key == m_mid_owner && p_out_key == m_out_owner && pexec);
-        let mut i = 0;
-        while i < 6 {
-            assert!(is_token_program(&owners[i]));
-            i += 1;
-        }
-        assert!(o_in.mint == m_in_key.to_bytes() && o_out.mint == m_out_key.to_bytes());
-        assert!(v1_in_key.to_bytes() == f32b(&w1_d, in1_vault) && v1_mid_key.to_bytes() == f32b(&w1_d, out1_vault));
-        assert!(v2_mid_key.to_bytes() == f32b(&w2_d, in2_vault) && v2_out_key.to_bytes() == f32b(&w2_d, out2_vault));
-        assert!(pda::derived(&or1_key, b"oracle", &w1_key.to_bytes(), None, &program_id));
-        assert!(pda::derived(&or2_key, b"oracle", &w2_key.to_bytes(), None, &program_id));
-        assert!(memo_key == memo_id() && memo_exec);
-    }
-    if reached {
-        assert!(struct_ok);
-        assert!(w1_key != w2_key);
-        assert!(f32b(&w1_d, out1_mint) == f32b(&w2_d, in2_mint));
-        assert!(m_mid_key.to_bytes() == f32b(&w2_d, in2_mint));
     }
 }
 
@@ -1709,6 +1398,7 @@ fn c15_two_hop_swap_v2() {
 #[kani::proof]
 #[kani::unwind(34)]
 #[kani::stub(alloc::fmt::format, stub_format)]
+#[kani::stub(anchor_lang::error::Error::with_account_name, stub_with_account_name)]
 #[kani::stub(<anchor_lang::prelude::Pubkey as core::fmt::Display>::fmt, stub_pubkey_display)]
 #[kani::stub(<anchor_lang::error::Error as core::convert::From<::whirlpool::errors::ErrorCode>>::from, stub_err_from_code)]
 #[kani::stub(<anchor_lang::error::Error as core::convert::From<anchor_lang::error::ErrorCode>>::from, stub_err_from_anchor_code)]
